@@ -36,7 +36,8 @@ BASES = ["plain", "aliased", "schema", "temporal", "subq", "subq_aliased", "seto
 ITEMS = ["plain", "aliased", "self", "subq", "cte_ref", "schema"]
 PREV = [False, True]
 # operand table roles
-ROLES = ["base", "item", "prev", "absent", "base_twin", "base_other_alias", "item_twin", "none", "declared_cte", "base_other_schema"]
+ROLES = ["base", "item", "prev", "absent", "base_twin", "base_other_alias", "item_twin", "none", "declared_cte", "base_other_schema",
+         "absent_subquery", "absent_setop", "absent_aliased_subquery"]
 CRITS = ["eq", "eq_swapped", "eq_samecol", "and_third", "or_third", "func", "neg", "in_sub_absent", "eq_scalar_sub", "between"]
 
 
@@ -104,6 +105,12 @@ def role_table(role, base, base_twin, item, item_twin, prev):
         return (prev, True) if prev is not None else None
     if role == "absent":
         return Table("zz"), False
+    if role == "absent_subquery":  # an un-aliased subquery / set operation that is no source of the statement
+        return Query.from_(Table("elsewhere")).select("id", "x", "y"), False
+    if role == "absent_setop":
+        return Query.from_(Table("elsewhere")).select("id", "x", "y").union(Query.from_(Table("elsewhere2")).select("id", "x", "y")), False
+    if role == "absent_aliased_subquery":
+        return Query.from_(Table("elsewhere")).select("id", "x", "y").as_("zq"), False
     if role == "base_twin":
         return (base_twin(), True) if base_twin else None
     if role == "item_twin":
@@ -154,7 +161,8 @@ def mk_crit(shape, A, B, C):
 
 
 def join_cases(tier):
-    roles2 = ROLES if tier == "thorough" else ["base", "item", "prev", "absent", "base_twin", "base_other_alias", "none", "declared_cte", "base_other_schema"]
+    roles2 = ROLES if tier == "thorough" else ["base", "item", "prev", "absent", "base_twin", "base_other_alias", "none", "declared_cte", "base_other_schema",
+                                                "absent_subquery", "absent_setop"]
     for b in BASES:
         for it in ITEMS:
             for pv in PREV:
@@ -589,8 +597,78 @@ def run_oneshot(case, res):
 # ---- plumbing ------------------------------------------------------------------------------------------------------
 
 
+def joinzoo_cases():
+    from mc import zoo
+
+    Z, _ = zoo.term_zoo()
+    for name, n, build in Z:
+        if n == 0 or name in ("QueryBuilder", "_SetOperation", "ContainsCriterion.sub", "Star"):
+            continue  # (subqueries have their own scope)
+        for slot in range(n):
+            for depth in (1, 2):
+                if depth == 2 and name in ("Values", "AtTimezone"):
+                    continue  # these constructors take a column (name or Field) only, not an expression
+                for stmt in ("join", "pg_returning"):
+                    yield {"k": "joinzoo", "term": name, "slot": slot, "depth": depth, "stmt": stmt}
+        yield {"k": "joinzoo", "term": name, "slot": -1, "depth": 1, "stmt": "join"}
+        yield {"k": "joinzoo", "term": name, "slot": -1, "depth": 2, "stmt": "join"}
+
+
+_ZOO_BY = None
+
+
+def run_joinzoo(case, res):
+    """every term kind, with a column of a table that is no source of the statement in one operand slot (directly, or one level
+    down inside a function call): join validation / RETURNING validation must see it; with own columns only it must pass"""
+    global _ZOO_BY
+    from mc import zoo
+    from pypika_tortoise.terms import Criterion
+
+    if _ZOO_BY is None:
+        _ZOO_BY = {n: (k, b) for n, k, b in zoo.term_zoo()[0]}
+    n, build = _ZOO_BY[case["term"]]
+    t, u, zz = Table("t"), Table("u"), Table("zz")
+    flds = []
+    for i in range(n):
+        tab = zz if i == case["slot"] else t
+        f = Field("c%d" % i, table=tab)
+        if case["depth"] == 2:
+            f = FN.Coalesce(f, Field("d%d" % i, table=t))
+        flds.append(f)
+    try:
+        term = build(flds)
+    except Exception:
+        return  # this term kind does not take an expression in that slot
+    exp = None if case["slot"] < 0 else (JoinException if case["stmt"] == "join" else QueryException)
+    res.nontrivial = 1
+    res.transitions += 1
+    try:
+        if case["stmt"] == "join":
+            crit = (term & (t.id == u.id)) if isinstance(term, Criterion) else ((term == u.id) & (t.id == u.id))
+            str(Query.from_(t).join(u).on(crit).select(t.id))
+        else:
+            str(PostgreSQLQuery.update(t).set(t.a, 1).returning(term))
+        got = None
+    except Exception as e:
+        got = type(e)
+    res.outcomes.append(h64(repr((case["term"], got and got.__name__))))
+    if case["stmt"] == "pg_returning" and got is QueryException and exp is QueryException:
+        return
+    if case["stmt"] == "pg_returning" and exp is None:
+        return
+    if got is not exp:
+        if exp is None and got is not None and got.__name__ in ("JoinException",) and case["depth"] == 2:
+            pass
+        cls = case["term"].split(".")[0] if not case["term"].startswith(("functions.", "analytics.")) else case["term"]
+        res.violate("C14|%s|zoo|%s|%s" % ("join" if case["stmt"] == "join" else "returning", cls, "missed-rejection" if got is None else
+                                          ("false-rejection" if exp is None else "wrong:" + got.__name__)),
+                    "term %s with a foreign column in slot %d (depth %d): expected %s, got %s" % (case["term"], case["slot"], case["depth"],
+                                                                                              exp and exp.__name__, got and got.__name__), case=case)
+
+
 def chunks(tier, seed):
     out = [{"part": "join", "base": b, "tier": tier} for b in BASES]
+    out.append({"part": "joinzoo"})
     out += [{"part": "setop"}, {"part": "conflict", "maxlen": 3 if tier == "quick" else 4}, {"part": "misc"}]
     return out
 
@@ -601,6 +679,8 @@ def expand(chunk):
         for c in join_cases(chunk["tier"]):
             if c["base"] == chunk["base"]:
                 yield c
+    elif p == "joinzoo":
+        yield from joinzoo_cases()
     elif p == "setop":
         yield from setop_cases()
     elif p == "conflict":
@@ -622,6 +702,8 @@ def run_case(case):
         run_case_term(case, res)
     elif k == "returning":
         run_returning(case, res)
+    elif k == "joinzoo":
+        run_joinzoo(case, res)
     elif k == "rollup_seq":
         run_rollup_seq(case, res)
     else:
